@@ -413,7 +413,7 @@ pub fn explore<R: Send + 'static>(
             return stats;
         }
         let (bodies, obs) = make();
-        let ex = run_schedule(bodies, prefix.clone(), obs, Duration::from_secs(20));
+        let ex = run_schedule(bodies, prefix.clone(), obs, Duration::from_secs(300));
         stats.executions += 1;
         stats.max_decisions = stats.max_decisions.max(ex.decisions.len());
         stats.max_preemptions = stats.max_preemptions.max(ex.preemptions());
